@@ -19,6 +19,9 @@ pub struct ProjectExec {
     schema: SchemaRef,
     /// Optional subquery executor for handling subqueries in projection expressions
     subquery_executor: Option<SubqueryExecutor>,
+    /// Positional rename (see [`ProjectExec::rename`]): columns pass through unchanged,
+    /// only the field names are replaced by those of `schema`.
+    rename_only: bool,
 }
 
 impl fmt::Debug for ProjectExec {
@@ -37,6 +40,34 @@ impl ProjectExec {
             exprs,
             schema,
             subquery_executor: None,
+            rename_only: false,
+        }
+    }
+
+    /// The input's columns, position by position, under the field names of `names`.
+    ///
+    /// A derived table `(SELECT t.a AS c0 ...) AS s` is a `SubqueryAlias` over a
+    /// projection whose physical fields are the bare select-list names (`c0`); the
+    /// logical schema above it calls the column `s.c0`. Physical expressions are
+    /// resolved by field NAME (`find_column_index`: qualified name, then bare name,
+    /// then suffix), so without the qualifier two derived tables that expose the same
+    /// column names are indistinguishable once joined and `b.c0` silently resolves to
+    /// `a.c0`. Table scans do not have the problem: their ScanNode schema already
+    /// carries the alias.
+    pub fn rename(input: Arc<dyn PhysicalOperator>, names: &SchemaRef) -> Self {
+        let fields: Vec<Field> = input
+            .schema()
+            .fields()
+            .iter()
+            .zip(names.fields())
+            .map(|(have, want)| Field::new(want.name(), have.data_type().clone(), true))
+            .collect();
+        Self {
+            input,
+            exprs: Vec::new(),
+            schema: Arc::new(Schema::new(fields)),
+            subquery_executor: None,
+            rename_only: true,
         }
     }
 
@@ -67,6 +98,7 @@ impl ProjectExec {
             exprs,
             schema,
             subquery_executor: None,
+            rename_only: false,
         })
     }
 }
@@ -88,6 +120,14 @@ impl PhysicalOperator for ProjectExec {
         let exprs = self.exprs.clone();
         let schema = self.schema.clone();
         let subquery_exec = self.subquery_executor.clone();
+
+        if self.rename_only {
+            let renamed = input_stream.and_then(move |batch| {
+                let schema = schema.clone();
+                async move { rename_batch(&batch, &schema) }
+            });
+            return Ok(Box::pin(renamed));
+        }
 
         let projected = input_stream.and_then(move |batch| {
             let exprs = exprs.clone();
@@ -114,6 +154,31 @@ impl fmt::Display for ProjectExec {
         let exprs: Vec<String> = self.exprs.iter().map(|e| e.to_string()).collect();
         write!(f, "Project: [{}]", exprs.join(", "))
     }
+}
+
+/// Same columns, new field names; field types follow the actual arrays (dictionary-encoded
+/// join gathers pass through unchanged).
+fn rename_batch(batch: &RecordBatch, names: &SchemaRef) -> Result<RecordBatch> {
+    if batch.num_columns() != names.fields().len() {
+        return Err(crate::error::QueryError::Internal(format!(
+            "rename: input has {} columns, alias schema {}",
+            batch.num_columns(),
+            names.fields().len()
+        )));
+    }
+    let fields: Vec<Field> = names
+        .fields()
+        .iter()
+        .zip(batch.columns())
+        .map(|(f, c)| Field::new(f.name(), c.data_type().clone(), true))
+        .collect();
+    let options =
+        arrow::record_batch::RecordBatchOptions::new().with_row_count(Some(batch.num_rows()));
+    Ok(RecordBatch::try_new_with_options(
+        Arc::new(Schema::new(fields)),
+        batch.columns().to_vec(),
+        &options,
+    )?)
 }
 
 fn project_batch(
